@@ -458,9 +458,16 @@ def conc_check(ck, scenarios: List[Dict[str, Any]], tier: str, module: str, cons
             ck.count(engine + "_starts", n * sum(1 for ev in tr if ev["e"] == "start"))
     batch = [r[0] for r in rows]
     consts = fit_consts(consts, batch)
+    controls = corrupted_controls(batch)
     t0 = _time.time()
-    rejected, ress = validate_parallel(module, consts, batch, invariants, parts=1 if tier == "quick" else 3)
+    rejected, ress = validate_parallel(module, consts, batch + controls, invariants, parts=1 if tier == "quick" else 3)
     ck.note(engine + "_validate_wall_s", round(_time.time() - t0, 1))
+    # binding self-test: the corrupted copies appended to the batch must be rejected, or the trace spec judges nothing
+    got = {i for (i, _u) in rejected if i >= len(batch)}
+    if len(got) != len(controls):
+        raise tlc.TLCFailure(f"{module} accepted a corrupted control trace ({len(controls) - len(got)} of {len(controls)})")
+    ck.count(engine + "_corrupted_controls_rejected", len(got))
+    rejected = [(i, u) for (i, u) in rejected if i < len(batch)]
     for res in ress:
         ck.add_tlc(res, f"trace validation {module} ({len(batch)} distinct traces of {total} executions)")
     for (idx, upto) in rejected:
@@ -470,6 +477,7 @@ def conc_check(ck, scenarios: List[Dict[str, Any]], tier: str, module: str, cons
                "schedules_with_this_trace": n, "decisions": dec, "trace": tr}
         rec.update(label_rejection(tr, upto))
         ck.fail(rec)
+    ck.rows = rows                       # (trace, scenario, multiplicity, decisions) - for further judges of the same executions
     ck.impl += total
     ck.count(engine + "_executions", total)
     ck.count(engine + "_distinct_traces", len(batch))
@@ -478,6 +486,28 @@ def conc_check(ck, scenarios: List[Dict[str, Any]], tier: str, module: str, cons
         mid = rows[len(rows) // 2]
         ck.sample({"scenario": mid[1], "trace": mid[0]})
     return total, len(batch)
+
+
+def corrupted_controls(batch: List[Any]) -> List[Any]:
+    """two corrupted copies of a recorded trace: (a) an action that starts a second time, (b) an action that starts although its
+    schedule call was removed from the trace.  Both must be rejected by either trace specification."""
+    src = next((tr for tr in batch if any(ev["e"] == "end" for ev in tr) and tr[-1]["e"] == "quiesce"), None)
+    if src is None:
+        return []
+    k = next(i for i, ev in enumerate(src) if ev["e"] == "end")
+    x = src[k]["item"]
+    st = next(ev for ev in src[:k] if ev["e"] == "start" and ev["item"] == x)
+    twice = src[:k + 1] + [dict(st, t=src[k]["t"]), dict(src[k])] + src[k + 1:]
+    unsched, skip = [], None
+    for ev in src:
+        if ev["e"] == "call" and ev.get("item") == x and ev["op"] in ("imm", "rel", "abs"):
+            skip = ev["th"]
+            continue
+        if skip is not None and ev["e"] == "ret" and ev["th"] == skip:
+            skip = None
+            continue
+        unsched.append(ev)
+    return [twice, unsched]
 
 
 def fit_consts(consts: Dict[str, Any], batch: List[Any]) -> Dict[str, Any]:
@@ -581,7 +611,7 @@ def require_coverage(res, actions: Sequence[str], what: str) -> Dict[str, int]:
 
 
 def _validate_part(module, consts, part, invariants):
-    rejected, ress = tracecheck.validate(module, consts, part, invariants=invariants, timeout=900, chunk=100000)
+    rejected, ress = tracecheck.validate(module, consts, part, invariants=invariants, timeout=2400, chunk=100000)
     for r in ress:
         r.raw = r.raw[-2000:]
         r.lines = []
@@ -614,8 +644,8 @@ def el_design(tier: str):
         consts = dict(Clients={"c1", "c2"}, Loops={11, 12, 13}, Items={1, 2}, ExitModes={True, False}, MaxT=1, MaxCalls=2,
                       RelD={1}, AbsT={0}, InnerCalls=False)
     else:
-        consts = dict(Clients={"c1", "c2"}, Loops={11, 12, 13, 14}, Items={1, 2, 3}, ExitModes={True, False}, MaxT=2, MaxCalls=3,
-                      RelD={1}, AbsT={0, 2}, InnerCalls=True)
+        consts = dict(Clients={"c1", "c2"}, Loops={11, 12, 13}, Items={1, 2, 3}, ExitModes={True, False}, MaxT=1, MaxCalls=3,
+                      RelD={1}, AbsT={0}, InnerCalls=True)
     cfg = tlc.cfg_text(consts, invariants=EL_INVS, symmetry="ClientSym").replace('"c1"', "c1").replace('"c2"', "c2")
     res = tlc.run("EventLoop", cfg, workers=2 if tier == "quick" else 4, timeout=3000, coverage=True, allow_violation=False)
     res.lines = []
@@ -636,7 +666,7 @@ def ts_design(tier: str):
     if tier == "quick":
         consts = dict(Threads={1, 2, 11}, Clients={1, 2}, Workers={11}, Items={1, 2}, MaxT=1, MaxCalls=3, RelD={1}, AbsT={0})
     else:
-        consts = dict(Threads={1, 2, 11, 12}, Clients={1, 2}, Workers={11, 12}, Items={1, 2, 3}, MaxT=2, MaxCalls=4, RelD={1, 2}, AbsT={0, 1})
+        consts = dict(Threads={1, 2, 11, 12}, Clients={1, 2}, Workers={11, 12}, Items={1, 2, 3}, MaxT=2, MaxCalls=3, RelD={1}, AbsT={0, 2})
     res = tlc.run("TimerSched", tlc.cfg_text(consts, invariants=TS_INVS), workers=2 if tier == "quick" else 4, timeout=3000,
                   coverage=True, allow_violation=False)
     res.lines = []
@@ -741,24 +771,28 @@ def impl_design(tier: str):
     """PlusCal model of run() / schedule_absolute / dispose at lock granularity (EventLoopImpl.tla), all interleavings with a
     freely ticking clock: design assurance.  A failure here is model drift, never a violation."""
     if tier == "quick":
-        consts = dict(Clients={1}, Loops={11, 12}, Items={1, 2}, ExitModes={True, False}, MaxT=1, MaxCalls=3, RelD={1}, AbsT={0})
+        cfgs = [dict(Clients={1}, Loops={11, 12}, Items={1, 2}, ExitModes={True, False}, MaxT=1, MaxCalls=3, RelD={1}, AbsT={0})]
     else:
-        consts = dict(Clients={1, 2}, Loops={11, 12, 13}, Items={1, 2, 3}, ExitModes={True, False}, MaxT=2, MaxCalls=3, RelD={1}, AbsT={0, 2})
-    res = tlc.run("EventLoopImpl", tlc.cfg_text(consts, spec="Spec", invariants=IMPL_INVS), workers=2 if tier == "quick" else 4,
-                  timeout=3000, coverage=True, allow_violation=True)
-    res.lines = []
-    drift = None
-    if not res.ok:
-        drift = f"EventLoopImpl.tla (lock-granularity model of the code) violates {res.violated}: the design-level result does not transfer"
-    else:
-        cov = coverage_of(res)
-        never = [a for a in IMPL_ACTIONS if cov.get(a, 0) == 0]
-        if never:
-            drift = f"EventLoopImpl.tla: labels never reached {never}"
-    label = "PlusCal model of run()/schedule/dispose at lock granularity, all interleavings " + str(
-        {k: (sorted(v) if isinstance(v, set) else v) for k, v in consts.items()})
-    res.raw = res.raw[-3000:]
-    return [(label, res, drift)]
+        cfgs = [dict(Clients={1, 2}, Loops={11, 12, 13}, Items={1, 2}, ExitModes={True, False}, MaxT=1, MaxCalls=2, RelD={1}, AbsT={0}),
+                dict(Clients={1}, Loops={11, 12, 13}, Items={1, 2, 3}, ExitModes={True, False}, MaxT=1, MaxCalls=4, RelD={1}, AbsT={0})]
+    out = []
+    for consts in cfgs:
+        res = tlc.run("EventLoopImpl", tlc.cfg_text(consts, spec="Spec", invariants=IMPL_INVS), workers=2 if tier == "quick" else 4,
+                      timeout=3000, coverage=True, allow_violation=True)
+        res.lines = []
+        drift = None
+        if not res.ok:
+            drift = f"EventLoopImpl.tla (lock-granularity model of the code) violates {res.violated}: the design-level result does not transfer"
+        else:
+            cov = coverage_of(res)
+            never = [a for a in IMPL_ACTIONS if cov.get(a, 0) == 0]
+            if never:
+                drift = f"EventLoopImpl.tla: labels never reached {never}"
+        label = "PlusCal model of run()/schedule/dispose at lock granularity, all interleavings " + str(
+            {k: (sorted(v) if isinstance(v, set) else v) for k, v in consts.items()})
+        res.raw = res.raw[-3000:]
+        out.append((label, res, drift))
+    return out
 
 
 def jvm_for(tier: str) -> None:
@@ -852,3 +886,54 @@ def periodic_traces(kind: str = "eventloop", period: int = 2, nticks: int = 3, d
                 outcomes[key] = out
             outcomes[key]["schedules"] += 1
     return list(outcomes.values())
+
+
+# ---- recorded executions against the PlusCal model (model drift only) ------------------------------------------------------------
+def _impl_eligible(tr: List[Dict[str, Any]]) -> bool:
+    if any(ev["e"] in ("deadlock", "steplimit", "exc") for ev in tr):
+        return False
+    if any(ev["e"] == "call" and ev["th"] > 10 for ev in tr):          # API calls from inside an action: no process for it
+        return False
+    return sum(1 for ev in tr if ev["e"] == "call" and ev["op"] == "dispose") <= 1
+
+
+def _impl_rename(tr: List[Dict[str, Any]]) -> List[Dict[str, Any]]:
+    """items in order of their schedule calls (the model hands out MinOf(Fresh)); the set-up thread 0 becomes client 4"""
+    ren: Dict[int, int] = {}
+    for ev in tr:
+        if ev["e"] == "call" and ev["op"] in ("imm", "rel", "abs"):
+            ren[ev["item"]] = len(ren) + 1
+    out = []
+    for ev in tr:
+        ev = dict(ev)
+        if ev.get("item"):
+            ev["item"] = ren.get(ev["item"], ev["item"])
+        if ev.get("th") == 0 and ev["e"] in ("call", "ret"):
+            ev["th"] = 4
+        out.append(ev)
+    return out
+
+
+def impl_trace_check(ck, rows, cap: int = 1500) -> None:
+    """every eligible recorded execution must be a behaviour of EventLoopImpl.tla (hidden pcs inferred by TLC) that satisfies its
+    invariants; a miss is model drift"""
+    traces = [_impl_rename(r[0]) for r in rows if r[1]["kind"] == "eventloop" and _impl_eligible(r[0])]
+    if len(traces) > cap:
+        step = len(traces) / float(cap)
+        traces = [traces[int(i * step)] for i in range(cap)]
+    if not traces:
+        return
+    nitems = max([1] + [ev["item"] for tr in traces for ev in tr if ev.get("item")])
+    maxt = max(ev["t"] for tr in traces for ev in tr)
+    loops = max([11] + [ev["th"] for tr in traces for ev in tr if ev.get("th", 0) > 10])
+    consts = dict(Clients={1, 2, 3, 4}, Loops=set(range(11, loops + 1)), Items=set(range(1, nitems + 1)), ExitModes={True, False},
+                  MaxT=0, MaxCalls=1000, RelD=set(range(0, maxt + 1)), AbsT=set(range(0, maxt + 1)))
+    rejected, ress = validate_parallel("EventLoopImplTrace", consts, traces, IMPL_INVS, parts=2)
+    for r in ress:
+        ck.add_tlc(r, f"recorded executions matched against the PlusCal model ({len(traces)} traces)")
+    ck.note("impl_traces_matched", len(traces) - len(rejected))
+    ck.note("impl_traces_unexplained", len(rejected))
+    for (idx, upto) in rejected[:5]:
+        tr = traces[idx]
+        ck.drift(f"EventLoopImpl.tla cannot explain a recorded execution beyond event {upto} "
+                 f"({json.dumps(tr[upto]) if upto < len(tr) else 'end'}): trace {json.dumps(tr)[:600]}")
